@@ -1,11 +1,12 @@
 CFG = {
-    "modules": ["Parsley.Props.C20"],
+    "modules": ["Parsley.Props.C20", "Parsley.Props.C20Fast"],
     "theorems": [
         "Parsley.C20.decode_then_encode", "Parsley.C20.encode_then_decode", "Parsley.C20.decode_total",
         "Parsley.C20.decode_wf", "Parsley.C20.decode_ok_iff", "Parsley.C20.decode_err_iff",
         "Parsley.C20.encode_injective", "Parsley.C20.decode_consumes_datagram",
         "Parsley.C20.decode_fuel_sufficient", "Parsley.C20.packetP_sound", "Parsley.C20.packetP_complete",
         "Parsley.C20.packetP_no_panic", "Parsley.C20.refDecode_iff", "Parsley.C20.refDecode_agrees",
+        "Parsley.C20.loopF_eq", "Parsley.C20.packetFast_eq",
     ],
     "partial": {},
     "n": {"quick": 1500, "thorough": 60000},
@@ -38,7 +39,21 @@ CFG = {
             "as ONE sub-message id 0x52 flags 0x54 length 0x5053 - accepted - and its one-short/one-long neighbours); per n/4 a "
             "random well-formed packet with one sub-message header overwritten by a dictionary pattern (per n/16 with the "
             "payload resized to fit) and 2-3 random well-formed packets concatenated; a returned packet that encodes a strict "
-            "prefix of the datagram gets its own verdict `bad unread`; then per n: one random well-formed packet (0..5 sub-messages, arbitrary id/flags, payload "
+            "prefix of the datagram gets its own verdict `bad unread`; the COUNT / SIZE family (corpus count_size.case; the format bounds neither the number of sub-messages nor the "
+            "datagram size - a reader with a cap, a counter wrapping at 2^8 / 2^16 or a size compared in the wrong width returns a strict prefix, rejects or panics). Datagrams are built from runs (a cycle of sub-messages "
+            "repeated) and written above 4 kB in DESCRIPTOR form `<seg>+<seg>+...`, <seg> = <hex> | <n>*<hex> (n copies), expanded by the harness (`expand`) and by the driver (`bytesOfDesc`) independently, so 65537 sub-messages "
+            "are one 60-character case line; up to 4 kB the packets go as `enc` with the packet written out; the model of a datagram above 4 kB is evaluated by Rtps.packetFast (one walk over the unread input instead of "
+            "re-measuring the buffer at every step), PROVED equal to the line-by-line model for all inputs (Parsley.C20.packetFast_eq). (1) count sweep: EVERY count 0..40 and 63 64 65 66 127 128 129 255 256 257 1000 1024 "
+            "1025 4096 (thorough: 2^k-1, 2^k, 2^k+1 for k = 5..15 and 22 more up to 50000) x 4 cycles (minimal 5-byte sub-messages little-endian; big-endian; 4-byte bodies with the byte orders alternating; seven kinds "
+            "mixed - known/unknown/vendor ids, both byte orders, other flag bits, bodies of 1-4 bytes incl. the magic) x last sub-message {explicit length, zero-length empty, zero-length with payload} (quick, from 63 up: 7 of the 12 combinations); each count also "
+            "damaged (last byte missing and a stray byte behind the last sub-message - both must be rejected; up to 4097 sub-messages, the reference decoder being quadratic -; a stray byte behind a zero-length one, which is payload; a zero length field in the middle or before the last one, which makes the rest ITS payload - "
+            "fewer sub-messages than it looks); small packets also as `enc` with the datagram in descriptor form; the huge counts 65535 65536 65537 (thorough: 65534..65538, 100000, 131071..131073) (quick: 5 datagrams in all; thorough: x 6 "
+            "cycle/last combinations). (2) count x size: 64/65/66 (thorough up to 1025) sub-messages of 1000 bytes, 65/256/257 of 255-257 bytes. (3) long bodies: length fields fffc fffd fffe ffff (thorough 17 values incl. "
+            "7fff 8000 8001 ff00) x both byte orders alone, and for ffff (both orders; thorough: every value): followed by / preceded by a small sub-message, one byte short, one byte long, twice in a row (131 kB), followed by a "
+            "zero-length sub-message of 70001 bytes; a zero-length sub-message alone / behind another with 65531 65532 65535 65536 65537 (thorough up to 2^20+1) payload bytes. (4) datagram sizes: exactly 65535 / 65536 / 65537 "
+            "(thorough also 65506-65508 = UDP maximum, 131071-131073) bytes made of ~13100 minimal (or mixed) sub-messages and one that fills up (explicit / zero-length / followed); a sub-message header starting at offset "
+            "65533..65537, both byte orders. (5) per n/16 a random header, a count from a distribution with mass at 60-70 / 120-136 / 250-262 / powers of two (up to 2048), a random cycle of 1-4 random sub-messages of 1-8 "
+            "bytes, a random last kind.  Adds 905 cases + 815 view twins in quick (147 in descriptor form), 6415 + 5616 in thorough (2293); then per n: one random well-formed packet (0..5 sub-messages, arbitrary id/flags, payload "
             "0..65535 skewed small, last one zero-length with p=1/3) encoded by the spec (`enc`: implementation must return "
             "exactly that packet) and one single-edit mutation (truncate, overwrite, insert, delete, append, flip the "
             "endianness bit, zero a length byte) of another (`raw`); per n/4: an arbitrary (not nec. well-formed) packet "
@@ -51,13 +66,15 @@ CFG = {
             "the expected output is literally that of the plain case, model and oracle are computed from the window's bytes alone (model of a view = model of its window: Parsley.C17.view_refines_copy); classes of rejected view cases carry "
             "the prefix `view-`. What lies behind the window continues the datagram: behind a truncated datagram the rest of it, otherwise the byte completing a payload one byte short, complete sub-messages, a zero-length tail sub-message, "
             "a whole second datagram, 2 / 20 / 300 plain bytes (swallowed by a zero length field if the end were the storage's). CUT family (view only): 4 well-formed datagrams (both byte orders, explicit and zero length fields, the magic "
-            "inside payloads) cut at EVERY byte, the rest behind the window; the raw oracle (spec reference decoder on the window) decides. Per tier: quick 19599 ordinary + 19101 view twins + 406 cuts, thorough 333209 + 325140 + 406.  "
+            "inside payloads) cut at EVERY byte, the rest behind the window; the raw oracle (spec reference decoder on the window) decides. Per tier: quick 20504 ordinary + 19916 view twins + 406 cuts, thorough 339624 + 330756 + 406.  "
             "Non-trivial = the datagram gets past the 20-byte header into the sub-message loop (enc with >=1 sub-message, "
             "or raw of >= 21 bytes starting with the magic; a view case counts when there are bytes in front of or behind the window).",
     "trusted_base": COMMON_TB + [
         "modelled, not verified: ParseBuffer::{remaining, exact, extract, set_cursor_unsafe, peek, incr_cursor_unsafe} as "
         "list operations on a whole (unrestricted) buffer, with their asserts/slice panics kept as explicit panic outcomes "
         "(restricted views: C17); UInt8P/UInt16P are the C19 models",
+        "the descriptor form of large datagrams (`<n>*<hex>` segments) is expanded by harness/src/bin/c20.rs::expand for the implementation and by "
+        "Driver/C20.lean::bytesOfDesc for model and oracle (two implementations; `enc` cases in descriptor form check both against the spec encoding of the written-out packet)",
         "observation of the private fields of Packet through its derived Debug rendering, confirmed by rebuilding the value "
         "with the public constructors and comparing with the crate's own == (harness/src/bin/c20.rs)",
     ],
@@ -82,5 +99,7 @@ LEVEL = {
             "or the loop's fuel bound (decode_total, decode_fuel_sufficient). The model mirrors every exit of HeaderP, "
             "SubMessageHeaderP, SubMessageP and the PacketP loop and is tied to the code on every check by running the real "
             "PacketP on spec-encoded packets, mutated datagrams and exhaustive small spaces (all flags bytes, ids, truncations), "
-            "judged by an oracle built only from the spec (encoder, WF, a reference decoder proved inverse to the encoder).",
+            "judged by an oracle built only from the spec (encoder, WF, a reference decoder proved inverse to the encoder). "
+            "Datagrams with up to 131073 sub-messages / 1 MiB payloads are part of every run; on datagrams above 4 kB the driver evaluates the model "
+            "with a single walk over the unread input (Model/RtpsFast.lean), which is proved to BE the model for every byte string (loopF_eq, packetFast_eq).",
 }
